@@ -5,6 +5,7 @@
 package combinator
 
 //@ import "sync/atomic"
+//@ import "regexp"
 //@ import "github.com/opsidian/parsley/ast"
 //@ import "github.com/opsidian/parsley/ast/interpreter"
 //@ import "github.com/opsidian/parsley/data"
@@ -78,3 +79,59 @@ package combinator
 //@   ensures  [inc;C02] !hit && !curtail ==> data.MapOf(callarg[data.IntMap](1, 2))[parserIndex] == data.MapOf(lrc)[parserIndex] + 1 && forall k int :: k != parserIndex ==> data.MapOf(callarg[data.IntMap](1, 2))[k] == data.MapOf(lrc)[k]
 //@   ghost_return when n == nil && err == nil :: parsley.GhostCurtailed = true
 //@   ghost_return when n != nil && parsley.ListArr(n) != 0 && freshid(parsley.ListArr(n)) :: parsley.GhostSpare(parsley.ListArr(n)) = false
+
+//@ -- ------------------------------------------------------------------ sequences
+//@ -- the two functions that describe a sequence, as spec-level applications of the stored function values
+//@ abstract func lookupOf(f func(int) parsley.Parser, i int) parsley.Parser
+//@ abstract func lenOf(f func(int) bool, n int) bool
+
+//@ functype combinator.sequence.parserLookUp(self func(int) parsley.Parser, i int) (p parsley.Parser)
+//@   requires i >= 0
+//@   ensures  same(p, lookupOf(self, i))
+//@   assigns  nothing
+//@ functype combinator.sequence.lenCheck(self func(int) bool, n int) (ok bool)
+//@   requires n >= 0
+//@   ensures  ok == lenOf(self, n)
+//@   assigns  nothing
+
+//@ -- a node that can be an element of a sequence: a single well-formed alternative ending inside the window
+//@ pure func validSeqNode(n parsley.Node) bool = n != nil && !typeis[ast.NodeList](n) && parsley.NodeOK(n) && parsley.GhostLo <= n.ReaderPos() && n.ReaderPos() <= parsley.GhostHi
+
+//@ -- result handlers build the node for one complete match; they must not keep the nodes slice (it is reused)
+//@ interface combinator.SeqResultHandler.HandleResult(h SeqResultHandler, pos parsley.Pos, token string, nodes []parsley.Node, interp parsley.Interpreter) (r parsley.Node)
+//@   requires h != nil && parsley.GhostLo <= pos && pos <= parsley.GhostHi && forall k int :: 0 <= k && k < len(nodes) ==> validSeqNode(nodes[k])
+//@   ensures  validSeqNode(r)
+//@   assigns  nothing
+
+//@ -- per-run state of a sequence (window = [GhostLo, GhostHi], arrays built by this run lie above GhostSeqMark)
+//@ pure func seqOK(s *sequence, ctx *parsley.Context) bool = s != nil && s.parserLookUp != nil && s.lenCheck != nil && s.resultHandler != nil && data.Inv(s.curtailingParsers) && (s.result != nil ==> parsley.NodeOK(s.result) && (parsley.ListSpare(s.result) > 0 ==> parsley.GhostSpare(parsley.ListArr(s.result))) && (parsley.ListArr(s.result) == 0 || parsley.ListArr(s.result) >= parsley.GhostSeqMark) && parsley.EndsWithin(s.result, parsley.GhostLo, parsley.GhostHi)) && (s.err != nil ==> parsley.GhostLo <= s.err.Pos() && s.err.Pos() <= parsley.GhostHi && s.err.Pos() <= parsley.GhostMaxFail) && (forall k int :: 0 <= k && k < len(s.nodes) ==> validSeqNode(s.nodes[k])) && (len(s.nodes) == 0 || array(s.nodes) >= parsley.GhostSeqMark) && offset(s.nodes) == 0
+//@ -- the first index without a parser is an acceptable length (otherwise a run could end with neither result nor error)
+//@ pure func seqShape(s *sequence) bool = forall d int :: d >= 0 && lookupOf(s.parserLookUp, d) == nil && (d == 0 || lookupOf(s.parserLookUp, d-1) != nil) ==> lenOf(s.lenCheck, d)
+//@ pure func seqGhost(ctx *parsley.Context) bool = (old(parsley.GhostCurtailed) ==> parsley.GhostCurtailed) && parsley.GhostMaxFail >= old(parsley.GhostMaxFail) && parsley.GhostCalls >= old(parsley.GhostCalls) && parsley.GhostFloorPos == old(parsley.GhostFloorPos) && same(parsley.GhostFloorLrc, old(parsley.GhostFloorLrc)) && parsley.GhostLo == old(parsley.GhostLo) && parsley.GhostHi == old(parsley.GhostHi) && parsley.GhostSeqMark == old(parsley.GhostSeqMark) && (forall a int :: a < parsley.GhostSeqMark ==> parsley.GhostSpare(a) == old(parsley.GhostSpare(a)))
+
+//@ func (s *sequence) parse(depth int, ctx *parsley.Context, lrc data.IntMap, pos parsley.Pos, merge bool) (done bool)
+//@   requires seqOK(s, ctx) && seqShape(s) && 0 <= depth && depth <= len(s.nodes) && (depth == 0 || lookupOf(s.parserLookUp, depth-1) != nil)
+//@   requires parsley.WfCtx(ctx) && parsley.WfCache(ctx) && parsley.InInput(ctx.Reader(), pos) && parsley.GhostLo <= pos && parsley.GhostHi == eof(ctx, pos) && parsley.GhostSeqMark <= allocmark()
+//@   requires [floor;C02] pos > parsley.GhostFloorPos || (pos == parsley.GhostFloorPos && forall k int :: data.MapOf(lrc)[k] >= data.MapOf(parsley.GhostFloorLrc)[k])
+//@   ensures  seqOK(s, ctx) && len(s.nodes) >= old(len(s.nodes)) && parsley.WfCtx(ctx) && parsley.WfCache(ctx) && seqGhost(ctx)
+//@   ensures  [fixed] same(s.parserLookUp, old(s.parserLookUp)) && same(s.lenCheck, old(s.lenCheck)) && same(s.resultHandler, old(s.resultHandler)) && s.token == old(s.token) && same(s.interpreter, old(s.interpreter))
+//@   ensures  [pc1;C04] s.result != nil || s.err != nil || parsley.GhostCurtailed
+//@   assigns  s.curtailingParsers, s.result, s.err, s.nodes, cells(s.nodes)
+//@   assigns  like parsley.Parser.Parse(nil, ctx, lrc, pos)
+//@ loop 1 (k rangeindex, rest ast.NodeList)
+//@   invariant 0 <= k && k <= len(rest)
+//@   invariant seqOK(s, ctx) && len(s.nodes) >= old(len(s.nodes)) && depth <= len(s.nodes) && parsley.WfCtx(ctx) && parsley.WfCache(ctx) && seqGhost(ctx)
+//@   invariant same(s.parserLookUp, old(s.parserLookUp)) && same(s.lenCheck, old(s.lenCheck)) && same(s.resultHandler, old(s.resultHandler)) && s.token == old(s.token) && same(s.interpreter, old(s.interpreter))
+//@   invariant [rest] forall j int :: k <= j && j < len(rest) ==> validSeqNode(rest[j]) && pos <= rest[j].ReaderPos()
+//@   invariant [pc1] k >= 1 ==> s.result != nil || s.err != nil || parsley.GhostCurtailed
+
+//@ func (s *sequence) parseNext(i int, node parsley.Node, depth int, ctx *parsley.Context, lrc data.IntMap, pos parsley.Pos, merge bool) (done bool)
+//@   requires seqOK(s, ctx) && seqShape(s) && 0 <= depth && depth <= len(s.nodes) && lookupOf(s.parserLookUp, depth) != nil && i >= 0
+//@   requires validSeqNode(node) && pos <= node.ReaderPos()
+//@   requires parsley.WfCtx(ctx) && parsley.WfCache(ctx) && parsley.InInput(ctx.Reader(), pos) && parsley.GhostLo <= pos && parsley.GhostHi == eof(ctx, pos) && parsley.GhostSeqMark <= allocmark()
+//@   requires [floor;C02] pos > parsley.GhostFloorPos || (pos == parsley.GhostFloorPos && forall k int :: data.MapOf(lrc)[k] >= data.MapOf(parsley.GhostFloorLrc)[k])
+//@   ensures  seqOK(s, ctx) && len(s.nodes) >= old(len(s.nodes)) && parsley.WfCtx(ctx) && parsley.WfCache(ctx) && seqGhost(ctx)
+//@   ensures  [fixed] same(s.parserLookUp, old(s.parserLookUp)) && same(s.lenCheck, old(s.lenCheck)) && same(s.resultHandler, old(s.resultHandler)) && s.token == old(s.token) && same(s.interpreter, old(s.interpreter))
+//@   ensures  [pc1;C04] s.result != nil || s.err != nil || parsley.GhostCurtailed
+//@   assigns  s.curtailingParsers, s.result, s.err, s.nodes, cells(s.nodes)
+//@   assigns  like parsley.Parser.Parse(nil, ctx, lrc, pos)
